@@ -240,7 +240,7 @@ func TestC14(t *testing.T) {
 	if r.Only < 0 {
 		stalledFrontDoorCall(t, r, dir)
 	}
-	r.Require("audit_syncs_failed_under_concurrency", "stalled_front_door_calls", "histories_mixing_front_door_and_direct_calls", "puts_of_the_empty_value", "histories_db", "histories_http", "histories_linearizable", "overlapping_histories", "list_overlapping_two_puts", "same_value_puts_overlapping", "histories_over_loopback_sockets", "histories_with_failing_file_system", "calls_failed_by_io_error_under_concurrency", "calls_whose_reply_was_lost", "histories_with_a_restart")
+	r.Require("metrics_scrapes_during_histories", "audit_syncs_failed_under_concurrency", "stalled_front_door_calls", "histories_mixing_front_door_and_direct_calls", "puts_of_the_empty_value", "histories_db", "histories_http", "histories_linearizable", "overlapping_histories", "list_overlapping_two_puts", "same_value_puts_overlapping", "histories_over_loopback_sockets", "histories_with_failing_file_system", "calls_failed_by_io_error_under_concurrency", "calls_whose_reply_was_lost", "histories_with_a_restart")
 	r.Rule("three history shapes: 'global-with-list' (4 clients x 5 ops: list/put/activate/get/delete on the first and last of 32 names, checked unpartitioned), 'per-key' (7 clients x 7 ops of all kinds on 3 names, partitioned by name), 'same-value-burst' (8 spin-synchronised clients putting the same value); audit sink injects yields/microsecond sleeps; DB API and HTTP handlers. Every history + a final sequential state read is decided by porcupine. Distinct = (shape, level, hash of the observed overlap pattern)")
 }
 
@@ -299,6 +299,27 @@ func oneHistory(t *testing.T, r *evid.Run, dir string, idx int, sh shape, level 
 		if err != nil {
 			t.Error(err)
 			return
+		}
+		if idx%4 == 2 {
+			// somebody scrapes the server's metrics all the while (cmd/setec publishes them through expvar):
+			// a reader like any other as far as the race detector is concerned
+			stopScrape := make(chan struct{})
+			scraped := make(chan int, 1)
+			go func() {
+				n := 0
+				for {
+					select {
+					case <-stopScrape:
+						scraped <- n
+						return
+					default:
+						_ = srv.S.Metrics().String()
+						n++
+						runtime.Gosched()
+					}
+				}
+			}()
+			defer func() { close(stopScrape); r.Count("metrics_scrapes_during_histories", <-scraped) }()
 		}
 		const addr = "100.64.0.14:1"
 		srv.SetWho(addr, httpdrv.Who{Login: "c14@verif", Node: "c14", Rules: []refmodel.Rule{{Actions: []string{"get", "info", "put", "activate", "delete"}, Patterns: []string{"*"}}}})
